@@ -52,7 +52,11 @@ def _mentions_pi(es):
     return any(walk(e) for e in es)
 
 
-def analytic_instances(formulas, rounds=2, max_pairs=40):
+LEAN_SCHEMAS = {"exp_pos", "log_exp", "exp_log", "sin2_cos2", "sqrt_def", "arcsin_def", "arccos_def", "arctan2_def",
+                "tanh_bound", "exp_gt_1_plus_x"}
+
+
+def analytic_instances(formulas, rounds=2, max_pairs=40, lean=False):
     """Instances of analytic axioms for the UF applications occurring in formulas."""
     out = []
     done = set()
@@ -68,6 +72,8 @@ def analytic_instances(formulas, rounds=2, max_pairs=40):
         new = []
 
         def add(name, key, f):
+            if lean and name not in LEAN_SCHEMAS:
+                return
             if (name, key) in done:
                 return
             done.add((name, key))
@@ -122,6 +128,7 @@ def analytic_instances(formulas, rounds=2, max_pairs=40):
             add("sin_nonneg_upper", aid, z3.Implies(z3.And(a >= 0, a <= PI), sin(a) >= 0))
             add("sin_pos_upper", aid, z3.Implies(z3.And(a > 0, a < PI), sin(a) > 0))
             add("sin_cos_quarter", aid, z3.Implies(a == PI / 2, z3.And(sin(a) == 1, cos(a) == 0)))
+            add("sin_odd_cos_even", aid, z3.And(sin(-a) == -sin(a), cos(-a) == cos(a)))
             need_pi = True
         for tid, t in acc.get("sqrt", {}).items():
             a = t.arg(0)
@@ -135,6 +142,12 @@ def analytic_instances(formulas, rounds=2, max_pairs=40):
                                               z3.And(sin(t) == a, t >= -PI / 2, t <= PI / 2, cos(t) >= 0)))
             add("arcsin_zero", tid, z3.Implies(a == 0, t == 0))
             add("arcsin_sign", tid, z3.And(z3.Implies(a >= 0, t >= 0), z3.Implies(a <= 0, t <= 0)))
+        for tid, t in acc.get("arctan2", {}).items():
+            yy, xx = t.arg(0), t.arg(1)
+            need_pi = True
+            rho = sqrt(xx * xx + yy * yy)
+            add("arctan2_def", tid, z3.Implies(z3.Or(xx != 0, yy != 0),
+                                               z3.And(yy == rho * sin(t), xx == rho * cos(t), t > -PI, t <= PI)))
         for tid, t in acc.get("arccos", {}).items():
             a = t.arg(0)
             need_pi = True
@@ -219,7 +232,7 @@ def abstract_nonlinear(e, memo):
         nums = [c for c in ch if z3.is_rational_value(c) or z3.is_int_value(c)]
         rest = [c for c in ch if not (z3.is_rational_value(c) or z3.is_int_value(c))]
         if len(rest) >= 2:
-            rest.sort(key=lambda t: (t.decl().name() if z3.is_app(t) else "~", t.num_args() if z3.is_app(t) else 0))
+            rest.sort(key=lambda t: (t.decl().name() if z3.is_app(t) else "~", t.num_args() if z3.is_app(t) else 0, t.sexpr()))
             acc = rest[0]
             for c in rest[1:]:
                 acc = _NLMUL(acc, c)
@@ -232,6 +245,69 @@ def abstract_nonlinear(e, memo):
         r = d(*ch) if ch else e
     memo[k] = r
     return r
+
+
+def _has_quantifier(e, seen):
+    if e.get_id() in seen:
+        return False
+    seen.add(e.get_id())
+    if z3.is_quantifier(e):
+        return True
+    return any(_has_quantifier(c, seen) for c in e.children())
+
+
+def ackermannize(fs):
+    """quantifier-free formulas with uninterpreted real functions -> equisatisfiable pure arithmetic:
+    every application becomes a fresh constant, plus functional-consistency constraints for each pair of
+    applications of the same symbol.  Returns None if not applicable."""
+    seen = set()
+    if any(_has_quantifier(f, seen) for f in fs):
+        return None
+    apps = {}
+    memo = {}
+    counter = [0]
+
+    def walk(e):
+        k = e.get_id()
+        if k in memo:
+            return memo[k]
+        if not z3.is_app(e) or e.num_args() == 0:
+            memo[k] = e
+            return e
+        ch = [walk(c) for c in e.children()]
+        d = e.decl()
+        if d.kind() == z3.Z3_OP_UNINTERPRETED:
+            if not (z3.is_real(e) or z3.is_int(e) or z3.is_bool(e)):
+                raise ValueError("non-arithmetic UF")
+            key = (d.name(), tuple(c.get_id() for c in ch))
+            for (n2, ids), (c2, args2) in list(apps.items()):
+                pass
+            if key not in apps:
+                counter[0] += 1
+                v = z3.Const("ack!%d" % counter[0], e.sort())
+                apps[key] = (v, ch)
+            r = apps[key][0]
+        else:
+            r = d(*ch)
+        memo[k] = r
+        return r
+    try:
+        out = [walk(f) for f in fs]
+    except (ValueError, z3.Z3Exception):
+        return None
+    by_fn = {}
+    for (name, _), (v, args) in apps.items():
+        by_fn.setdefault(name, []).append((v, args))
+    total_pairs = 0
+    for name, lst in by_fn.items():
+        for i in range(len(lst)):
+            for j in range(i + 1, len(lst)):
+                total_pairs += 1
+                if total_pairs > 3000:
+                    return None
+                (v1, a1), (v2, a2) = lst[i], lst[j]
+                out.append(z3.Implies(z3.And([x == y for x, y in zip(a1, a2)]), v1 == v2))
+    return out
 
 
 def solve_smt2(text, timeout_s=30, seed=0, want_model=True, use_cvc5=True):
@@ -264,6 +340,7 @@ def solve_smt2(text, timeout_s=30, seed=0, want_model=True, use_cvc5=True):
                 memo = {}
                 fs2 = [abstract_nonlinear(f, memo) for f in fs]
                 xa, ya = z3.Reals("nl!x nl!y")
+                za = z3.Real("nl!z")
                 fs2.append(z3.ForAll([xa, ya], _NLMUL(xa, ya) == _NLMUL(ya, xa)))
                 s = z3.Solver()
                 s.set("timeout", int(min(timeout_s * 0.25, 10) * 1000))
@@ -275,7 +352,21 @@ def solve_smt2(text, timeout_s=30, seed=0, want_model=True, use_cvc5=True):
             except z3.Z3Exception as exc:
                 attempts.append("z3/nl-abstracted:error %s" % str(exc)[:80])
         if res["status"] == "unknown":
-            attempt_default(0.5, "simplify+solve-eqs", z3.Then("simplify", "solve-eqs", "smt").solver())
+            # quantifier-free with uninterpreted functions: Ackermann's reduction, then the complete NRA procedure (nlsat)
+            try:
+                ack = ackermannize(list(fs))
+                if ack is not None:
+                    s = z3.Tactic("qfnra-nlsat").solver()
+                    s.set("timeout", int(timeout_s * 0.4 * 1000))
+                    s.add(ack)
+                    r = s.check()
+                    attempts.append("z3/ackermann+nlsat:%s" % r)
+                    if r == z3.unsat:
+                        res.update(status="unsat", backend="z3(ackermann+nlsat)")
+            except z3.Z3Exception as exc:
+                attempts.append("z3/ackermann+nlsat:error %s" % str(exc)[:80])
+        if res["status"] == "unknown":
+            attempt_default(0.4, "simplify+solve-eqs", z3.Then("simplify", "solve-eqs", "smt").solver())
     except z3.Z3Exception as exc:
         res["reason"] = "z3 exception: %s" % exc
     if res["status"] == "unknown" and use_cvc5:
